@@ -175,12 +175,74 @@ def h_tagged() -> dict[str, Any]:
     return {"s": s, "e": e, "t": s.T.with_tagged_axis(1, usertags.BazTag(7))}
 
 
+def h_nesteddict() -> dict[str, Any]:
+    """named arrays of an inner DictOfNamedArrays used inside expressions"""
+    import pytato as pt
+    x = pt.make_placeholder("x", (4,), F8)
+    s = pt.sin(x)
+    inner = pt.make_dict_of_named_arrays({
+        "zeta": s * 2, "alpha": s + 1, "mid": pt.cos(x), "kappa": s * s, "beta": x - s,
+        "omega": pt.exp(x), "delta": x * 3})
+    return {"o1": inner["zeta"] + inner["alpha"] * inner["omega"],
+            "o2": inner["mid"] - inner["kappa"] + inner["delta"],
+            "o3": inner["beta"] * inner["zeta"]}
+
+
+def h_outputdag() -> dict[str, Any]:
+    """outputs that are subexpressions of other outputs (the order in which
+    outputs are computed comes from a topological sort of this DAG)"""
+    import pytato as pt
+    x = pt.make_placeholder("x", (4,), F8)
+    y = pt.make_placeholder("y", (4,), F8)
+    a = pt.sin(x) + y
+    b = a * 2
+    c = pt.cos(y) - x
+    d = a + b * c
+    e = b - c
+    f = d * e + a
+    g = pt.exp(c)
+    h = f + g + e
+    return {"w_out": h, "m_out": a, "z_out": d, "k_out": b, "q_out": c, "b_out": f,
+            "t_out": e, "e_out": g}
+
+
+_KNL: dict[str, Any] = {}
+
+
+def h_loopycall() -> dict[str, Any]:
+    """a call to a hand-written loopy kernel whose arguments are expressions
+    over unnamed data wrappers (their names are generated while the bindings
+    are traversed)"""
+    import loopy as lp
+
+    import pytato as pt
+    from pytato.loopy import call_loopy
+
+    from . import cexec
+    if "k" not in _KNL:
+        _KNL["k"] = lp.make_kernel(
+            "{[i]: 0<=i<4}",
+            """
+            res[i] = 2*velocity[i] + alpha[i]*mass[i] - zeta[i] + beta[i]
+            aux[i] = zeta[i]*alpha[i]
+            """,
+            [lp.GlobalArg("velocity,alpha,mass,zeta,beta", np.float64, shape=(4,)),
+             lp.GlobalArg("res,aux", np.float64, shape=(4,), is_output=True)],
+            name="combine", lang_version=(2018, 2), target=cexec._make_target())
+    x = pt.make_placeholder("x", (4,), F8)
+    ds = [pt.make_data_wrapper(_data(f"lc{n}", (4,))) for n in range(5)]
+    call = call_loopy(_KNL["k"], {"velocity": x + ds[0], "alpha": ds[1] * 2, "mass": ds[2],
+                                  "zeta": pt.sin(x) * ds[3], "beta": ds[4] - x})
+    return {"r": call["res"] + 1, "a": call["aux"] * call["res"], "d": ds[2] + ds[4]}
+
+
 HAND: dict[str, Callable[[], dict[str, Any]]] = {
     "multiout": h_multiout, "reductions": h_reductions, "einsum": h_einsum,
     "indexing": h_indexing, "datawrappers": h_datawrappers, "calls": h_calls,
     "calls_stay": h_calls_stay,
     "manyargs": h_manyargs, "chain": h_chain, "stored": h_stored,
-    "sizeparam": h_sizeparam, "tagged": h_tagged,
+    "sizeparam": h_sizeparam, "tagged": h_tagged, "nesteddict": h_nesteddict,
+    "loopycall": h_loopycall, "outputdag": h_outputdag,
 }
 
 
